@@ -307,8 +307,11 @@ def jobs_for(tier):
             jobs.append(job_pairs(op, "rat", R, R, lo, min(len(R), lo + rchunk)))
         jobs.append(job_pairs(op, "rat", R, Lsmall, 0, len(R)))
         jobs.append(job_pairs(op, "rat", Lsmall, R, 0, len(Lsmall)))
+    ties = nums.rounding_ties()
     for op in UNARY:
         jobs.append(("unary", op, "rat", L + R + big))
+        if op in ("round", "floor", "ceiling", "truncate", "numerator", "denominator", "abs", "exact-integer-sqrt"):
+            jobs.append(("unary", op, "rat", ties))
     for op in INT_UNARY:
         jobs.append(("unary", op, "int", L + big))
     jobs.append(("expt", L[:120] + R[:60], [0, 1, 2, 3, 5, 17, 64, -1, -2, -3]))
